@@ -664,6 +664,66 @@ theorem linkname_resolves (all : List Link) (decls : List Sym) (ref impl : Sym) 
     rw [List.mem_filter] at hdm
     rw [huniq d hdm.1 (by simpa using hd)]
 
+/-! ### `GoLinknameSet.Add` -/
+
+/-- **linkset_add_no_conflict** — when no reference is named twice, `Add` records every directive in both maps and
+    returns no error. -/
+theorem linkset_add_no_conflict (es : List Link) : ∀ (s : LinkSet),
+    (s.byReference ++ es).Pairwise (fun a b => a.reference ≠ b.reference) →
+    s.add es = (⟨s.byImplementation ++ es, s.byReference ++ es⟩, false) := by
+  induction es with
+  | nil => intro s _; simp [LinkSet.add]
+  | cons e es ih =>
+    intro s h
+    unfold LinkSet.add
+    have hno : s.byReference.any (fun l => l.reference == e.reference) = false := by
+      rw [List.any_eq_false]
+      intro a ha
+      have := (List.pairwise_append.mp h).2.2 a ha e List.mem_cons_self
+      simpa using this
+    simp only [hno, Bool.false_eq_true, if_false]
+    have h' : ((s.byReference ++ [e]) ++ es).Pairwise (fun a b => a.reference ≠ b.reference) := by
+      simpa using h
+    have := ih ⟨s.byImplementation ++ [e], s.byReference ++ [e]⟩ h'
+    simpa using this
+
+/-- **program_linkset_no_conflict** — for a program in which every reference has one directive, the set the linker
+    works with is simply the list of all directives in link order: this is what `resolve`/`findImplementation` take
+    as `all`. -/
+theorem program_linkset_no_conflict (pkgs : List (List Link))
+    (h : pkgs.flatten.Pairwise (fun a b => a.reference ≠ b.reference)) :
+    programLinkSet pkgs = ⟨pkgs.flatten, pkgs.flatten⟩ := by
+  unfold programLinkSet
+  suffices H : ∀ (s : LinkSet), (s.byReference ++ pkgs.flatten).Pairwise (fun a b => a.reference ≠ b.reference) →
+      pkgs.foldl (fun s l => (s.add l).1) s = ⟨s.byImplementation ++ pkgs.flatten, s.byReference ++ pkgs.flatten⟩ by
+    simpa using H ⟨[], []⟩ (by simpa using h)
+  clear h
+  induction pkgs with
+  | nil => intro s _; simp
+  | cons l ls ih =>
+    intro s hs
+    simp only [List.foldl_cons, List.flatten_cons]
+    have h1 : (s.byReference ++ l).Pairwise (fun a b => a.reference ≠ b.reference) := by
+      rw [List.flatten_cons, ← List.append_assoc] at hs
+      exact (List.pairwise_append.mp hs).1
+    rw [linkset_add_no_conflict l s h1]
+    have h2 : ((s.byReference ++ l) ++ ls.flatten).Pairwise (fun a b => a.reference ≠ b.reference) := by
+      simpa [List.flatten_cons] using hs
+    have := ih ⟨s.byImplementation ++ l, s.byReference ++ l⟩ h2
+    simpa using this
+
+/-- **linkset_conflict_first_wins** — with a second directive for the same reference the FIRST one stays in force, an
+    error is returned (which compiler.go:137 discards) and the remaining directives of that package are not recorded
+    as references (tied to the real linker by a program in checks/c10.py). -/
+theorem linkset_conflict_first_wins :
+    let f : Sym := ⟨"m".toList, "f".toList⟩
+    let g : Sym := ⟨"m".toList, "g".toList⟩
+    let i1 : Sym := ⟨"m/lib".toList, "impl1".toList⟩
+    let i2 : Sym := ⟨"m/lib".toList, "impl2".toList⟩
+    let i3 : Sym := ⟨"m/lib".toList, "impl3".toList⟩
+    (LinkSet.add ⟨[], []⟩ [⟨f, i1⟩, ⟨f, i2⟩, ⟨g, i3⟩]) = (⟨[⟨f, i1⟩, ⟨f, i2⟩], [⟨f, i1⟩]⟩, true) := by
+  decide
+
 /-! ### repaired defects (about the scheme BEFORE the two `fix:` patches fixes/C10-*.patch)
 
 * Before "export bodyless go:linkname functions through $pkg" a cross-package call of an exported bodyless
